@@ -17,6 +17,7 @@ func verifBlockForever()
 func verifQuiesce()
 func verifLiveThreads() int
 func verifAdvanceTime()
+func verifSymbolicClock()
 
 // stub file system (symbolic) / sandbox directory (native); see engine/fs.go
 func verifFSRoot() string                         // the destination directory; creates the sandbox
